@@ -324,6 +324,16 @@ func (e *specEnv) binary(k *ast.BinaryExpr) Val {
 	}
 	a = e.fit(a, b.Typ)
 	b = e.fit(b, a.Typ)
+	// nil takes the zero value of the other operand's type (interface, slice, ...)
+	isNil := func(v Val) bool {
+		bs, ok := v.Typ.(*types.Basic)
+		return ok && bs.Kind() == types.UntypedNil
+	}
+	if isNil(a) && b.Typ != nil && !isNil(b) {
+		a = Val{T: c.zero(b.Typ), Typ: b.Typ}
+	} else if isNil(b) && a.Typ != nil && !isNil(a) {
+		b = Val{T: c.zero(a.Typ), Typ: a.Typ}
+	}
 	at, bt := e.f.term(a), e.f.term(b)
 	if !sameSort(at.Sort, bt.Sort) {
 		e.fail("operands of %s have different sorts: %s vs %s (%s / %s)", k.Op, at.Sort, bt.Sort, types.ExprString(k.X), types.ExprString(k.Y))
